@@ -199,19 +199,24 @@ def _frames(table_name, table=None):
     return _CACHE[key]
 
 
-def check_probe(s: str, frames, viols, keyprefix=""):
+def check_probe(s: str, frames, viols, keyprefix="", arg=None):
+    """s = the characters; arg = the object actually used as the child (default s)."""
     from htmltools import Tag, html_escape
+    if arg is None:
+        arg = s
     # history first: the very first time this process escapes s, it is as an ATTRIBUTE value
     # (a result cache keyed on the string alone would now hold the attribute-escaped form)
     if s != PH:
-        Tag("i", title=s).get_html_string()
-    he = html_escape(s)
+        Tag("i", title=arg).get_html_string()
+    he = html_escape(arg)
+    if arg is not s:
+        he = he + ""
     why = valid_escape(he, s, TEXT_MUST)
     if why:
         viols.append((f"{keyprefix}html_escape", f"html_escape({s!r}) = {he!r}: {why}",
                       {"probe": s, "observed": he}))
     for name, (f, pre, suf) in frames.items():
-        out = f(s)
+        out = f(arg)
         if not (out.startswith(pre) and out.endswith(suf) and len(out) >= len(pre) + len(suf)):
             viols.append((f"{keyprefix}ctx={name}:frame",
                           f"text child {s!r} changed the surrounding markup in context {name}",
@@ -271,6 +276,19 @@ def lookalikes():
     out += ["AT&amp;T", "&lt;b&gt;", "&amp;amp;", "&&amp;", "&amp;&", "&;", "&#;", "&#x;", "a&amp;lt;b",
             "&amp;#60;", "&#38;amp;", "<&lt;>", "&AMP;", "&Lt;", "&GT;", "&quot;", "&apos;"]
     return out
+
+
+def fn_subclass(case):
+    """children that are instances of str subclasses: rendered as their characters."""
+    from .c03 import SUBCLASS_MAKERS
+    kind, chars = case
+    s = "".join(chars)
+    viols = []
+    arg = SUBCLASS_MAKERS[kind](s)
+    check_probe(s, _frames("ctx"), viols, keyprefix=f"strsub={kind}:", arg=arg)
+    ways = {k: v for k, v in _frames("ways").items() if k not in ("extend_str", "add", "via_tagify_str", "via_tagify_list", "via_tagify_tag")}
+    check_probe(s, ways, viols, keyprefix=f"strsub={kind}:way:", arg=arg)
+    return (True, None, viols)
 
 
 def fn_lookalike(s):
@@ -397,6 +415,10 @@ def plan(tier):
         dict(kind="space", name="long-strings-after-html", fn=fn_long,
              space=Prod(Const(["a&b<c>d ", "<i>&amp;</i>"]), Const([1, 31, 32, 63, 64, 65, 127, 128, 129, 255, 256, 257, 1000, 4096, 70000])),
              note="1..70000-character strings rendered as HTML() first, then as plain text"),
+        dict(kind="space", name="str-subclass-children", fn=fn_subclass,
+             space=Prod(Const(["loud", "tagged", "str-enum-mixin"]), Seq(Const(["r", "&", "<", "\n"]), 0, 2 if tier == "quick" else 3)),
+             note="children that are instances of str subclasses (overridden __str__/__format__, plain subclass, "
+                  "(str, Enum) member) in every context and way of adding"),
         dict(kind="space", name="reference-lookalikes", space=Const(lookalikes()), fn=fn_lookalike,
              note="every HTML5 named reference (with ';', 400 without), numeric references, double-escape "
                   "look-alikes x core contexts x ways of adding"),
